@@ -27,6 +27,7 @@ SPEC = dict(
     level_note="proof; one clause (exactly-once after reconciliation) is violated by the code: witness + partial theorem + harness monitor",
     technique="Lean 4: finite abstraction + simulation lemma for an interpreter of the regenerated step list, obligations by `decide` over generated terms; differential correspondence under fault injection (real Migrator, LocalBackend, SQLite, DuckDB)",
     factgen=True,
+    clockify=["internal/tiering/metadata.go"],
     hooks={"internal/tiering": "go/hooks/c12_tiering", "internal/license": "go/hooks/c12_license", "internal/api": "go/hooks/c12_api"},
     harnesses=[dict(name="c12", tags="verif duckdb_arrow", timeout=dict(quick=900, thorough=3000))],
     trusted_base=[
